@@ -749,7 +749,9 @@ impl<'p> Enc<'p> {
             }
             Value::Pid { node, id, serial, creation } => {
                 self.maybe_local();
-                let legacy_ok = *creation <= 3 && *id < (1 << 15) && *serial < (1 << 13);
+                // PID_EXT: creation is one byte of which two bits count; with DFLAG_V4_NC (which every current node sets) the
+                // ID and Serial fields may use all 32 bits (only older peers were limited to 15 / 13 bits)
+                let legacy_ok = *creation <= 3;
                 let t = if legacy_ok { self.id_alts(88, &[103]) } else { 88 };
                 self.out.push(t);
                 self.atom(node);
@@ -767,9 +769,10 @@ impl<'p> Enc<'p> {
                 let mut alts: Vec<u8> = vec![120];
                 if *id < (1 << 28) {
                     alts.push(89);
-                    if self.allow_legacy && *creation <= 3 {
-                        alts.push(102);
-                    }
+                }
+                // PORT_EXT: a 32-bit ID field (28 bits only for peers without DFLAG_V4_NC)
+                if *id <= u32::MAX as u64 && self.allow_legacy && *creation <= 3 {
+                    alts.push(102);
                 }
                 let t = alts[self.pick(alts.len(), "port")];
                 self.out.push(t);
